@@ -184,6 +184,25 @@ def r13_1(c, R):
                 return None
             handled.add(id(inner))
             return list_side(rr[0]), neg
+        if inner.get("k") == "mcall" and inner["name"] == "any" and len(inner["args"]) == 1 and H.peel(inner["args"][0]).get("k") == "closure":
+            # `<list>.iter().any(|y| y == x)`  ==  `<list>.contains(x)`
+            acl = H.peel(inner["args"][0])
+            aps = _closure_params(acl)
+            cmp_ = H.peel(_value_of(acl["body"]))
+            rr = H.recv_root(inner["recv"])
+            chain, plain = H.peel(inner["recv"]), True
+            while chain.get("k") == "mcall":
+                plain = plain and chain["name"] in ("iter", "into_iter", "copied", "cloned")
+                chain = H.peel(chain["recv"])
+            ok = len(aps) == 1 and len(aps[0]) == 1 and cmp_.get("k") == "bin" and cmp_["op"] == "==" and plain and rr is not None \
+                and list_side(rr[0]) is not None
+            if ok:
+                sides = [H.local_of(H.peel(cmp_["l"])), H.local_of(H.peel(cmp_["r"]))]
+                ok = all(sides) and sorted(i for i, _ in sides) == sorted([x, aps[0][0][0]])
+            if not ok:
+                R.unrecognised(rid, what, "membership test that is not `<list>.iter().any(|y| y == <closure parameter>)`: " + H.render(inner), sp)
+                return None
+            return list_side(rr[0]), neg
         return "other"
 
     handled = set()       # ids of `contains` calls that were classified
@@ -194,7 +213,7 @@ def r13_1(c, R):
             continue
         cur = H.local_of(n["recv"])
         s = list_side(cur[0]) if cur else None
-        cl = H.peel(n["args"][0]) if n["args"] else {}
+        cl = H.peel(_resolve_plain_local(n["args"][0], body)) if n["args"] else {}      # the predicate may be a closure held in a local
         if s is None or cl.get("k") != "closure":
             R.unrecognised(rid, "next_if", "next_if on something that is not a cursor over one of the two lists, or without a closure: " + H.render(n), n["sp"])
             continue
@@ -528,7 +547,10 @@ def _slice_table(c, R, rid):
         R.unrecognised(rid, "merge_slice", "lookup that is not rooted in the client/server parameter: " + b, dec["sp"])
 
 
-def _name_atom_factory(name_ids):
+def _name_atom_factory(name_ids, c=None, scope=None, depth=0):
+    """Leaf predicates over the entry name: `name.starts_with/ends_with/contains(<const>)`.  A bool local of `scope` is the expression it
+    was initialised with; a call of a bool-valued function of the module with the name as an argument (an extracted predicate such as
+    `is_signature_file(name)`) is the formula of that function's body over its parameter."""
     def atom(n):
         n = H.peel(n)
         if n.get("k") == "mcall" and n["name"] in ("starts_with", "ends_with", "contains") and len(n["args"]) == 1:
@@ -536,6 +558,20 @@ def _name_atom_factory(name_ids):
             v = H.const_value(n["args"][0])
             if rr and rr[0] in name_ids and isinstance(v, str):
                 return "%s:%s" % (n["name"], v)
+        if n.get("k") == "path" and n["res"].get("r") == "local" and n.get("ty") == "bool" and scope is not None and depth < 3:
+            init = H.let_init_of(scope, n["res"]["id"])
+            if init is not None:
+                return B.formula(init, _name_atom_factory(name_ids, c, scope, depth + 1))
+        if n.get("k") == "call" and c is not None and depth < 3 and n.get("ty") == "bool":
+            helper = c.by_key.get((n.get("callee") or {}).get("key"))
+            if helper is not None and _in_mod(helper) and isinstance(helper.get("body"), dict) and len(helper.get("params") or []) == len(n["args"]):
+                ids = set()
+                for prm, a in zip(helper["params"], n["args"]):
+                    rr = H.recv_root(a)
+                    if rr and rr[0] in name_ids:
+                        ids |= set(i for i, _ in H.pat_bindings(prm))
+                if ids:
+                    return B.formula(_value_of(helper["body"]), _name_atom_factory(ids, c, helper["body"], depth + 1))
         return None
     return atom
 
@@ -659,7 +695,7 @@ def _jar_table(c, R, rid, spec):
            detail="a class present in both jars carries no class-level side annotation")
 
     # ---- J3/J6: skipped entries (every `continue` of the loop body)
-    atom = _name_atom_factory(name_ids)
+    atom = _name_atom_factory(name_ids, c, loop["body"])
     found = []
     for n, parents in H.walk_with_parents(loop["body"]):
         if n.get("k") != "continue":
@@ -979,11 +1015,18 @@ def _value_shape(v):
     return "?" + T.show(v)[:60]
 
 
-def _pair_literals(e):
-    """ElementValuePair struct literals of an `element_value_pairs` expression (not those of nested annotations)"""
-    stack, pairs = [e], []
+def _pair_literals(e, scope):
+    """ElementValuePair struct literals of an `element_value_pairs` expression (not those of nested annotations); a plain local is
+    the expression it was initialised with (`let pairs = vec![..]; Annotation { element_value_pairs: pairs, .. }`)"""
+    stack, pairs, seen = [e], [], set()
     while stack:
         x = stack.pop()
+        if x.get("k") == "path" and x["res"].get("r") == "local" and x["res"]["id"] not in seen:
+            seen.add(x["res"]["id"])
+            init = H.let_init_of(scope, x["res"]["id"])
+            if init is not None:
+                stack.append(init)
+            continue
         if x.get("k") == "struct" and (x.get("adt") or "").endswith("::ElementValuePair"):
             pairs.append(x)
             continue
@@ -1005,7 +1048,7 @@ def _annotation_value(b, n, inline, side):
         if f["name"] == "annotation_type":
             out["type"] = _class_of(ev.ev(f["e"], env))
         elif f["name"] == "element_value_pairs":
-            for p in _pair_literals(f["e"]):
+            for p in _pair_literals(f["e"], b["body"]):
                 ev.seen.add(id(p))
                 nm, val = None, None
                 for pf in p["fields"]:
@@ -1018,12 +1061,12 @@ def _annotation_value(b, n, inline, side):
     return out, ev
 
 
-def _side_names_and_annotations(c, R, rid, spec):
+def _annotation_records(c, spec):
+    """Every Annotation literal of the module, evaluated for both sides (private helpers inlined):
+    ([(body, literal, shape, {side: value record}, {side: evaluator})], ids of the struct literals the evaluations went through)"""
     mod_bodies = [b for b in c.bodies if _in_mod(b) and isinstance(b.get("body"), dict)]
     inline = {b["key"]: b for b in mod_bodies if b.get("params") is not None}
-    roles = {w["type"]: nm for nm, w in spec["annotations"].items()}
-    # ---- every Annotation literal of the module, evaluated for both sides (private helpers inlined)
-    anns = []       # (body, literal, shape, {side: value record}, {side: evaluator})
+    anns = []
     reached = set()
     for b in mod_bodies:
         for n in H.walk(b["body"]):
@@ -1036,6 +1079,21 @@ def _side_names_and_annotations(c, R, rid, spec):
                        for v in spec["env_type_constants"]]
                 shape = shp[0] if all(x == shp[0] for x in shp) else {"type": "?differs by side", "pairs": {}}
                 anns.append((b, n, shape, vals, evs))
+    return anns, reached
+
+
+def _sided_annotation_fns(c, spec):
+    """Keys of the function that builds the `Environment(value = EnvType.X)` annotation from its Side parameter (by role: the function
+    whose Annotation literal has that type), plus private wrappers handing their own Side parameter on to it."""
+    anns, _ = _annotation_records(c, spec)
+    seeds = set(b["key"] for (b, n, shape, _, _) in anns if shape["type"] == spec["annotations"]["sided"]["type"])
+    return _forwarders(c, seeds, need_side=True)
+
+
+def _side_names_and_annotations(c, R, rid, spec):
+    mod_bodies = [b for b in c.bodies if _in_mod(b) and isinstance(b.get("body"), dict)]
+    roles = {w["type"]: nm for nm, w in spec["annotations"].items()}
+    anns, reached = _annotation_records(c, spec)
     # ---- EnvType constant names: every enum-valued element of an annotation, as a function of the side
     n_enum = 0
     for (b, n, shape, vals, evs) in anns:
@@ -1083,26 +1141,27 @@ def _side_names_and_annotations(c, R, rid, spec):
     # ---- class-level marking helper
     vs = _find_fn(c, "visit_sided_annotation", lambda b: any("Side" in t for t in b["inputs"]) and "ClassFile" in (b.get("output") or ""))
     if R.anchor(rid, "fn dukebox::merge::visit_sided_annotation", vs):
-        _mark_check(R, rid, "class-marking:visit_sided_annotation", vs["body"], H.param_ids(vs), vs["inputs"], vs["sp"], via="read")
+        _mark_check(R, rid, "class-marking:visit_sided_annotation", vs["body"], H.param_ids(vs), vs["inputs"], vs["sp"], via="read",
+                    sided=_sided_annotation_fns(c, spec))
 
 
-def _mark_check(R, rid, key, body, pids, input_tys, sp, via):
+def _mark_check(R, rid, key, body, pids, input_tys, sp, via, sided):
     """`body` clones/reads its element parameter into a local, pushes sided_annotation(<its Side parameter>) onto one of the
-    local's annotation lists and returns Ok(local)."""
+    local's annotation lists and returns Ok(local).  `sided` = keys of the functions building the Environment annotation."""
     side_p = [p for p, t in zip(pids, input_tys) if "Side" in (t or "")]
     elem_p = [p for p, t in zip(pids, input_tys) if "Side" not in (t or "")]
     pushes = []
     for n in H.walk(body):
         if n.get("k") == "mcall" and n["name"] == "push" and len(n["args"]) == 1:
-            arg = H.peel(n["args"][0])
-            if arg.get("k") == "call" and H.callee_name(arg) == "sided_annotation":
+            arg = H.peel(_resolve_plain_local(n["args"][0], body))      # `let a = sided_annotation(side); list.push(a)`
+            if arg.get("k") == "call" and (arg.get("callee") or {}).get("key") in sided:
                 pushes.append((n, arg))
     ok = False
     got = None
     if len(pushes) == 1 and len(side_p) == 1 and len(elem_p) == 1:
         n, arg = pushes[0]
         root, path = H.place_root(n["recv"])
-        a0 = H.local_of(arg["args"][0]) if arg["args"] else None
+        a0 = ([H.local_of(x) for x in arg["args"] if H.local_of(x) and H.local_of(x)[0] in side_p] or [None])[0]
         v = H.peel(_value_of(body))
         ret_ok = False
         if v.get("k") == "call" and (H.ctor_of(v) or (None, None))[1] == "Ok" and root:
@@ -1231,7 +1290,8 @@ def r13_3(c, duke, R, spec):
             if what in spec["marked_member_lists"]:
                 if sidecl.get("k") == "closure" and len(sidecl["params"]) == 2:
                     cps = [b[0][0] if len(b) == 1 else None for b in _closure_params(sidecl)]
-                    _mark_check(R, rid, "mark:ClassFile.%s" % what, sidecl["body"], cps, ["elem", "Side"], sidecl["sp"], via="clone")
+                    _mark_check(R, rid, "mark:ClassFile.%s" % what, sidecl["body"], cps, ["elem", "Side"], sidecl["sp"], via="clone",
+                                sided=_sided_annotation_fns(c, spec))
                 else:
                     R.unrecognised(rid, "mark:ClassFile.%s" % what, "side callback is not a two-parameter closure", sidecl.get("sp"))
             # merged member literal
